@@ -727,6 +727,8 @@ def patch_lines(
     ):
     # type: (...) -> None
     """Applies patches to lines.  Updates lines in place."""
+    # Read (and thereby check) the whole script before changing anything
+    patches = list(patches)
     for (first, last, args) in patches:
         lines[first:last] = args
 
